@@ -133,12 +133,13 @@ func (fr *Frame) unknownCall(what string, res *types.Tuple, args []*Val, impure 
 	if impure {
 		fr.vc.abstracted("call to " + what + ": results unconstrained, memory reachable from the arguments havocked")
 		fr.vc.assumed["code without a contract (external packages, user callbacks) only modifies memory reachable from its arguments"] = true
-		for _, a := range args {
-			fr.havocReachable(a, 1)
-		}
+		// (the watermark first: what the callee stores may be objects it allocated)
 		a := fr.vc.fresh("alloc", sInt)
 		fr.vc.fact(app("<=", fr.st.alloc, a))
 		fr.st.alloc = a
+		for _, a := range args {
+			fr.havocReachable(a, 1)
+		}
 	} else {
 		fr.vc.abstracted("call to " + what + ": results unconstrained")
 	}
@@ -363,6 +364,9 @@ func (fr *Frame) applyContract(c *Contract, fn *ssa.Function, key string, args [
 	if _, ok := c.Attrs["havoc-args"]; ok {
 		// external function that writes through its arguments (e.g. a pointer
 		// boxed in an interface): everything reachable from them is unknown
+		a := fr.vc.fresh("alloc", sInt)
+		fr.vc.fact(app("<=", fr.st.alloc, a))
+		fr.st.alloc = a
 		for _, a := range args {
 			fr.havocReachable(a, 1)
 		}
@@ -381,10 +385,10 @@ func (fr *Frame) applyContract(c *Contract, fn *ssa.Function, key string, args [
 	for _, en := range c.Ensures {
 		t, err := fr.evalClause(en, &evalCtx{fr: fr, st: fr.st, old: pre, names: rnames, callee: key, assuming: true})
 		if err != nil {
-			if strings.Contains(err.Error(), "atAcquire()") {
+			if strings.Contains(err.Error(), "atAcquire()") || strings.Contains(err.Error(), "local()") {
 				// the clause speaks about the callee's own critical section:
 				// not usable by the caller (dropping an assumption is sound)
-				fr.vc.abstracted("postcondition of " + key + " over atAcquire() not used at call sites")
+				fr.vc.abstracted("postcondition of " + key + " over atAcquire()/local() not used at call sites")
 				continue
 			}
 			fr.stale(name+"/ensures", err)
